@@ -141,11 +141,14 @@ func guardFacts(c *Ctx, pkgs []string, doNil, doDiv, doIdx bool) {
 	if doNil {
 		R.Rule("R14a", "E8", "a field selection through a nilable protobuf message pointer (singular message field, or a local assigned from one / from a callee that may return nil) is dominated by a non-nil fact on every path", 10)
 	}
+	if doNil {
+		R.Rule("R14h", "E8", "digest lists hold no nil: every value appended to a []*Digest in request code (the lists handed to the presence checks, which dereference their elements under the cache lock) is known to be non-nil where it is appended", 5)
+	}
 	if doDiv {
 		R.Rule("R14b", "E8", "every division or modulo by a non-constant divisor is dominated by a non-zero fact for that divisor", 2)
 	}
 	if doIdx {
-		R.Rule("R14c", "E8", "every slice/array/string index that is a constant or not a loop induction variable is dominated by a bound on the length", 8)
+		R.Rule("R14c", "E8", "every slice/array/string index that is a constant or not a loop induction variable, and every non-constant slice bound, is dominated by a bound on the length (io.Reader byte counts, range indices, bounded accumulators and bounded-result helpers are recognised)", 20)
 	}
 	g := &guardRules{c: c, summary: map[*types.Func]string{}, valPost: validatorPost(c)}
 	if doNil {
@@ -595,6 +598,42 @@ func (g *guardRules) observe(x *Exec, e ast.Expr, s St, doNil, doDiv, doIdx bool
 		}
 		R.Check(safe, "R14c", key, g.c.P.Pos(e.Pos()), "index "+exprStr(e)+" is dominated by a bound on the length",
 			exprStr(e)+": no dominating length/bound check on this path (index out of range panics the handler)", x.Trace()...)
+	case *ast.CallExpr:
+		if !doNil {
+			return
+		}
+		id, ok := e.Fun.(*ast.Ident)
+		if !ok || id.Name != "append" || len(e.Args) < 2 || e.Ellipsis.IsValid() {
+			return
+		}
+		if _, isBuiltin := info.Uses[id].(*types.Builtin); !isBuiltin {
+			return
+		}
+		sl, ok := info.TypeOf(e.Args[0]).Underlying().(*types.Slice)
+		if !ok {
+			return
+		}
+		if ep, ok := sl.Elem().(*types.Pointer); !ok || !strings.HasSuffix(ep.Elem().String(), "execution/v2.Digest") {
+			return
+		}
+		for i, a := range e.Args[1:] {
+			nn := g.base.Nil(x, a, s) == "nonnil"
+			if u, ok := ast.Unparen(a).(*ast.UnaryExpr); ok && u.Op == token.AND {
+				nn = true
+			}
+			ord := 0
+			ast.Inspect(root.Body, func(m ast.Node) bool {
+				if c2, ok := m.(*ast.CallExpr); ok && c2.Pos() <= e.Pos() {
+					if id2, ok := c2.Fun.(*ast.Ident); ok && id2.Name == "append" {
+						ord++
+					}
+				}
+				return true
+			})
+			key := fmt.Sprintf("%s%s:append#%d:%s:%s#%d", g.c.Cfg, root.Name, ord, exprStr(e.Args[0]), exprStr(a), i)
+			R.Check(nn, "R14h", key, g.c.P.Pos(e.Pos()), "the digest "+exprStr(a)+" appended to "+exprStr(e.Args[0])+" is known to be non-nil",
+				exprStr(a)+" can be nil here; the list is later walked dereferencing every element (findMissingLocalCAS does so holding the cache lock: a nil entry panics the handler and leaves the lock held)", x.Trace()...)
+		}
 	case *ast.SliceExpr:
 		if !doIdx || !idxScope(root.Name) {
 			return
